@@ -224,3 +224,87 @@ func GenClassF(r *rng.R, o GenOpts, pageCSS string) *ClassF {
 	root.St.Root = true
 	return &ClassF{HTML: g.buf.String(), Root: root, PageH: h, PageTop: 10, NTok: g.n, Features: g.feat}
 }
+
+// Render builds the HTML of a hand-written abstract tree (corpus cases).  root = html box whose only
+// kid is body; every style value that differs from the parent's (inherited: orphans, widows, page) or
+// from the initial value is written out.  Token ids are assigned in document order.
+func Render(root *Box, pageCSS string, pageTop, pageH float64) *ClassF {
+	g := &gen{feat: map[string]bool{"corpus": true}}
+	fmt.Fprintf(&g.buf, `<style>%s html,body{margin:0;font:20px/20px Ahem}</style><body>`, pageCSS)
+	var rec func(b, parent *Box)
+	rec = func(b, parent *Box) {
+		var st []string
+		if b.St.BB != "auto" {
+			st = append(st, "break-before:"+b.St.BB)
+		}
+		if b.St.BA != "auto" {
+			st = append(st, "break-after:"+b.St.BA)
+		}
+		if b.St.BI != "auto" {
+			st = append(st, "break-inside:"+b.St.BI)
+		}
+		if b.St.MT != 0 || b.St.MB != 0 {
+			st = append(st, fmt.Sprintf("margin:%spx 0 %spx", fnum(b.St.MT), fnum(b.St.MB)))
+		}
+		if b.St.PT != 0 || b.St.BT != 0 {
+			st = append(st, fmt.Sprintf("padding:%spx 0;border:%spx solid", fnum(b.St.PT), fnum(b.St.BT)))
+		}
+		if b.St.Orph != parent.St.Orph || b.St.Wid != parent.St.Wid {
+			st = append(st, fmt.Sprintf("orphans:%d;widows:%d", b.St.Orph, b.St.Wid))
+		}
+		if b.St.Pg != parent.St.Pg {
+			st = append(st, fmt.Sprintf("page:n%d", b.St.Pg))
+		}
+		fmt.Fprintf(&g.buf, `<div style="%s">`, strings.Join(st, ";"))
+		if b.Lines != nil {
+			for i := range b.Lines {
+				if i > 0 {
+					g.buf.WriteString("<br>")
+				}
+				g.n++
+				b.Lines[i] = g.n
+				g.buf.WriteString(Tok(g.n))
+			}
+		}
+		for _, k := range b.Kids {
+			rec(k, b)
+		}
+		g.buf.WriteString("</div>")
+	}
+	body := root.Kids[0]
+	for _, k := range body.Kids {
+		rec(k, body)
+	}
+	return &ClassF{HTML: g.buf.String(), Root: root, PageH: pageH, PageTop: pageTop, NTok: g.n, Features: g.feat}
+}
+
+// P and B are constructors for hand-written trees: a paragraph of n lines / a block.
+func P(st Style, n int) *Box        { return &Box{St: norm(st), Lines: make([]int, n)} }
+func B(st Style, kids ...*Box) *Box { return &Box{St: norm(st), Kids: kids} }
+
+func norm(st Style) Style {
+	if st.BI == "" {
+		st.BI = "auto"
+	}
+	if st.BB == "" {
+		st.BB = "auto"
+	}
+	if st.BA == "" {
+		st.BA = "auto"
+	}
+	if st.Orph == 0 {
+		st.Orph = 2
+	}
+	if st.Wid == 0 {
+		st.Wid = 2
+	}
+	return st
+}
+
+// Doc wraps kids into html(root) > body.
+func Doc(kids ...*Box) *Box {
+	body := B(Style{}, kids...)
+	root := B(Style{}, body)
+	root.St.Root = true
+	return root
+}
